@@ -1,0 +1,82 @@
+//go:build verif
+
+package vgirpc
+
+import (
+	"bytes"
+	"context"
+	"encoding/json"
+	"net/http"
+	"strings"
+)
+
+// verif_c38.go — add-only exports for property C38 (access-log records).
+// Constants are recovered from what the compiled emitter / redactor actually
+// produce, never copied by hand.
+
+func init() {
+	verifConstProviders = append(verifConstProviders, func() []VerifConst {
+		// One synthetic unary dispatch at INFO level with a payload: yields the
+		// level / logger literals and the payload-omitted marker.
+		var buf bytes.Buffer
+		hook := NewAccessLogHook(&buf, "")
+		info := DispatchInfo{Method: "m", MethodType: DispatchMethodUnary, Protocol: "P", RequestData: []byte{1}}
+		_, tok := hook.OnDispatchStart(context.Background(), info)
+		hook.OnDispatchEnd(context.Background(), tok, info, nil, nil)
+		var rec map[string]any
+		_ = json.Unmarshal(bytes.TrimSpace(buf.Bytes()), &rec)
+		str := func(k string) string { s, _ := rec[k].(string); return s }
+
+		// Alternatives of the default redaction pattern: `^x$` = exact name,
+		// anything else = case-insensitive substring.
+		src := defaultClaimRedactPattern.String()
+		src = strings.TrimPrefix(src, "(?i)")
+		var words, exact []string
+		for _, alt := range strings.Split(src, "|") {
+			if strings.HasPrefix(alt, "^") && strings.HasSuffix(alt, "$") {
+				exact = append(exact, alt[1:len(alt)-1])
+			} else {
+				words = append(words, alt)
+			}
+		}
+		return []VerifConst{
+			verifBytes("al_level", str("level")),
+			verifBytes("al_logger", str("logger")),
+			verifBytes("al_payload_omitted", str("truncated")),
+			verifBytes("al_status_ok", str("status")),
+			verifBytes("al_redacted", RedactedClaim),
+			verifBytes("al_unary", DispatchMethodUnary),
+			verifBytes("al_stream", DispatchMethodStream),
+			verifList("al_redact_words", words),
+			verifList("al_redact_exact", exact),
+		}
+	})
+}
+
+type verifDiscardRW struct{ h http.Header }
+
+func (d *verifDiscardRW) Header() http.Header { return d.h }
+func (d *verifDiscardRW) WriteHeader(int)     {}
+
+// Write accepts len(b) bytes, except that a negative first byte count request
+// cannot be expressed; short writes are modelled by the caller splitting.
+func (d *verifDiscardRW) Write(b []byte) (int, error) { return len(b), nil }
+
+// VerifEgressContext installs a real egressRecorder in ctx, exactly as
+// HttpServer.ServeHTTP does, and returns a finish function that pushes the
+// given write sizes through a real countingResponseWriter and then flushes the
+// recorder (emitting the deferred records).
+func VerifEgressContext(ctx context.Context, requestID string, requestBytes, externalized int64) (context.Context, func(writes []int)) {
+	rec := &egressRecorder{requestID: requestID, requestBytes: requestBytes}
+	ctx = withEgressRecorder(ctx, rec)
+	if externalized > 0 {
+		countExternalizedBytes(ctx, externalized)
+	}
+	cw := &countingResponseWriter{ResponseWriter: &verifDiscardRW{h: http.Header{}}, rec: rec}
+	return ctx, func(writes []int) {
+		for _, n := range writes {
+			_, _ = cw.Write(make([]byte, n))
+		}
+		rec.flush()
+	}
+}
